@@ -4,7 +4,7 @@ properties are checked directly.  These units are labelled ``bounded``: their ch
 evidence and are never counted as proved obligations.  Their purpose is (i) to keep a property decided when a
 function was restructured so that its sidecar contract no longer applies (the contract unit then reports
 'undecided', the bounded unit may still find the violation), and (ii) to validate the contracts against CPython.
-Bounds: plans <= 6 nodes, histories <= 6 steps, UJVC_PROBE_CASES seeded histories (quick: 400, thorough: 6000 x 3 seeds).
+Bounds: plans <= 6 nodes, histories <= 6 steps, UJVC_PROBE_CASES seeded histories (quick: 1500, thorough: 6000 x 3 seeds).
 """
 import os
 import subprocess
@@ -27,15 +27,15 @@ def _mk(pid):
     def run(ctx):
         thorough = os.environ.get("UJVC_TIER") == "thorough"
         seed = int(os.environ.get("VERIF_SEED", "0") or 0)
-        runs = [(6000, seed + i) for i in range(3)] if thorough else [(400, seed)]
+        runs = [(6000, seed + i) for i in range(3)] if thorough else [(1500, seed)]
         for cases, sd in runs:
             rc, out = _run_probe(pid, cases, sd)
             harness = "VIOLATED HARNESS" in out
-            ctx.check(f"bounded/probe-harness-ran[{cases}-histories,seed={sd}]", bool(rc in (0, 1) and not harness), info=out[-1500:], props=[pid])
+            ctx.check("bounded/probe-harness-ran", bool(rc in (0, 1) and not harness), info=f"{cases} histories, seed {sd}: " + out[-1500:], props=[pid])
             ctx.check(f"bounded/statement-of-{pid}-held-on-every-generated-history", bool(rc == 0 or harness), info=out[-2500:], props=[pid])
         return "ok"
 
-    run.__doc__ = f"bounded: native probe of {pid} on generated histories (plans <= 6 nodes, <= 6 steps; 400 cases quick / 18000 thorough)"
+    run.__doc__ = f"bounded: native probe of {pid} on generated histories (plans <= 6 nodes, <= 6 steps; 1500 cases quick / 18000 thorough)"
     return run
 
 
